@@ -96,7 +96,7 @@ def from_generic(o):
         return ("L", o._lex, o._langtag, o._datatype)
     if isinstance(o, gs.Triple):
         return ("T", from_generic(o.s), from_generic(o.p), from_generic(o.o))
-    if o is gs.DefaultGraph:
+    if o is gs.DefaultGraph or isinstance(o, type(gs.DefaultGraph)):  # (a deep-copied singleton)
         return ("D",)
     return ("?", repr(o))
 
